@@ -1,1 +1,233 @@
-// harnesses for module buffers (included under cfg(kani))
+// C04 / C05: the line readers and byte helpers on ALL inputs of a small window.
+
+include!("hmacro.rs");
+
+mod verif_buffers {
+    use super::*;
+    use crate::verif::{Fault, Script, Seg};
+
+    /// read_line on every byte string of length N, with a byte limit and a BufReader capacity:
+    ///  - Ok(n) iff a LF occurs within the first `limit` bytes; n = its offset + 1; the line is the
+    ///    text before it minus one trailing CR;
+    ///  - else Err; never more than `limit` bytes are buffered and never more than limit + cap
+    ///    bytes are taken from the transport;
+    ///  - afterwards the reader is positioned right behind the line (head/body hand-off).
+    fn read_line_all<const N: usize>(limit: u64, cap: usize, seg: Seg) {
+        let data: [u8; N] = kani::any();
+        let mut script = Script::from_slice(&data, seg, Fault::Eof);
+        let mut reader = BufReader::with_capacity(cap, script.handle());
+        let mut line: Vec<u8> = Vec::new();
+        let r = read_line(&mut reader, &mut line, limit);
+        let window = if (limit as usize) < N { limit as usize } else { N };
+        let mut lf = usize::MAX;
+        let mut i = 0;
+        while i < window {
+            if data[i] == b'\n' && lf == usize::MAX {
+                lf = i;
+            }
+            i += 1;
+        }
+        match &r {
+            Ok(n) => {
+                assert!(lf != usize::MAX, "C04: line reported although no LF arrived within the limit");
+                assert!(*n == lf + 1, "C04: wrong number of bytes consumed for a line");
+                let end = if lf > 0 && data[lf - 1] == b'\r' { lf - 1 } else { lf };
+                assert!(line.len() == end, "C04: line has the wrong length");
+                let mut j = 0;
+                while j < end {
+                    assert!(line[j] == data[j], "C04: line content differs from the wire");
+                    j += 1;
+                }
+                // hand-off: the next byte the reader yields is the byte after the LF
+                if lf + 1 < N {
+                    let mut b = [0u8; 1];
+                    let k = reader.read(&mut b);
+                    assert!(matches!(k, Ok(1)) && b[0] == data[lf + 1], "C01: byte after the line lost or duplicated");
+                    std::mem::forget(k);
+                }
+            }
+            Err(_) => {
+                assert!(lf == usize::MAX, "C04: complete line within the limit rejected");
+            }
+        }
+        assert!(line.len() as u64 <= limit, "C05: more than the limit buffered for one line");
+        assert!(script.total_served as u64 <= limit + cap as u64, "C05: unbounded input consumed for one line");
+        kani::cover!(r.is_ok(), "must: a line is read");
+        kani::cover!(r.is_err(), "must: a line is rejected");
+        std::mem::forget(r);
+        std::mem::forget(reader);
+    }
+
+    verif_harness!(c04_q_read_line_n3_whole, 10, { read_line_all::<3>(16, 8, Seg::Whole) });
+    verif_harness!(c04_q_read_line_n4_onebyte, 10, { read_line_all::<4>(16, 2, Seg::OneByte) });
+    verif_harness!(c04_q_read_line_n4_limit3, 10, { read_line_all::<4>(3, 8, Seg::Whole) });
+    verif_harness!(c04_t_read_line_n5_max2, 10, { read_line_all::<5>(16, 3, Seg::Max(2)) });
+    verif_harness!(c04_t_read_line_n5_limit4, 10, { read_line_all::<5>(4, 1, Seg::Whole) });
+    verif_harness!(c04_t_read_line_n6_whole, 10, { read_line_all::<6>(16, 8, Seg::Whole) });
+
+    // read_line_strict on fully symbolic bytes is out of reach (3 symbolic bytes: 36 M variables, 154 M
+    // clauses, > 10 min and CBMC aborts at 4 bytes: the `loop { read_until }` nest over a heap Vec
+    // with symbolic length).  Its CR/LF placements are therefore enumerated: the byte at each
+    // position is drawn from {CR, LF, other} ("other" = a fixed obs-text byte); the runs are concrete
+    // executions of the real code inside CBMC, all panics/bounds/overflow checks included.
+    fn read_line_strict_classes(classes: &[u8], limit: u64, cap: usize, seg: Seg) {
+        // concrete: even one symbolic non-delimiter byte makes the LF search symbolic for the
+        // symbolic executor (assumptions do not prune symbolic execution) and does not finish
+        let other: u8 = 0x80 | (classes.len() as u8);
+        let n = classes.len();
+        let mut data = [0u8; 8];
+        let mut i = 0;
+        while i < n {
+            data[i] = match classes[i] {
+                b'r' => b'\r',
+                b'n' => b'\n',
+                _ => other,
+            };
+            i += 1;
+        }
+        let mut script = Script::from_slice(&data[..n], seg, Fault::Eof);
+        let mut reader = BufReader::with_capacity(cap, script.handle());
+        let mut line: Vec<u8> = Vec::new();
+        let r = read_line_strict(&mut reader, &mut line, limit);
+        let window = if (limit as usize) < n { limit as usize } else { n };
+        let mut end = usize::MAX;
+        let mut i = 0;
+        while i + 1 < window {
+            if classes[i] == b'r' && classes[i + 1] == b'n' && end == usize::MAX {
+                end = i;
+            }
+            i += 1;
+        }
+        match &r {
+            Ok(m) => {
+                assert!(end != usize::MAX, "C04: strict line reported without CR LF inside the limit");
+                assert!(*m == end + 2, "C04: wrong number of bytes consumed for a strict line");
+                assert!(line.len() == end, "C04: strict line has the wrong length");
+                let mut j = 0;
+                while j < end {
+                    assert!(line[j] == data[j], "C04: strict line content differs from the wire");
+                    j += 1;
+                }
+                if end + 2 < n {
+                    let mut b = [0u8; 1];
+                    let k = reader.read(&mut b);
+                    assert!(matches!(k, Ok(1)) && b[0] == data[end + 2], "C01: byte after the head line lost or duplicated");
+                    std::mem::forget(k);
+                }
+            }
+            Err(_) => assert!(end == usize::MAX, "C04: complete CR LF line within the limit rejected"),
+        }
+        assert!(line.len() as u64 <= limit, "C05: more than the limit buffered for one head line");
+        assert!(script.total_served as u64 <= limit + cap as u64, "C05: unbounded input consumed for one head line");
+        std::mem::forget(r);
+        std::mem::forget(reader);
+    }
+
+    /// all class strings over {r, n, o} of length `len` (3^len placements), one after the other
+    fn read_line_strict_all_classes(len: usize, limit: u64, cap: usize, seg: Seg) {
+        let mut idx = [0u8; 6];
+        let mut count = 0;
+        loop {
+            let mut cls = [0u8; 6];
+            let mut i = 0;
+            while i < len {
+                cls[i] = [b'r', b'n', b'o'][idx[i] as usize];
+                i += 1;
+            }
+            read_line_strict_classes(&cls[..len], limit, cap, seg);
+            count += 1;
+            // next
+            let mut k = 0;
+            while k < len {
+                idx[k] += 1;
+                if idx[k] < 3 {
+                    break;
+                }
+                idx[k] = 0;
+                k += 1;
+            }
+            if k == len {
+                break;
+            }
+        }
+        kani::cover!(count > 1, "must: placements enumerated");
+    }
+
+    verif_harness!(c04_q_read_line_strict_len3_whole, 30, { read_line_strict_all_classes(3, 16, 8, Seg::Whole) });
+    verif_harness!(c04_q_read_line_strict_len3_onebyte_limit2, 30, { read_line_strict_all_classes(3, 2, 2, Seg::OneByte) });
+    verif_harness!(c04_t_read_line_strict_len4_max2, 90, { read_line_strict_all_classes(4, 16, 3, Seg::Max(2)) });
+
+    /// read_line_ending: true iff the next bytes are LF or CR LF; consumes exactly those.
+    verif_harness!(c04_q_read_line_ending_n3, 10, {
+        let data: [u8; 3] = kani::any();
+        let len: usize = kani::any();
+        kani::assume(len <= 3);
+        let mut script = Script::from_slice(&data, Seg::OneByte, Fault::Eof);
+        script.len = len;
+        let mut reader = BufReader::with_capacity(2, script.handle());
+        let r = read_line_ending(&mut reader);
+        let want = if len >= 1 && data[0] == b'\n' {
+            Some(true)
+        } else if len >= 2 && data[0] == b'\r' {
+            Some(data[1] == b'\n')
+        } else if len >= 1 && data[0] != b'\r' {
+            Some(false)
+        } else {
+            None
+        };
+        match (&r, want) {
+            (Ok(a), Some(b)) => assert!(*a == b, "C02: line ending after chunk data misjudged"),
+            (Err(_), None) => {}
+            _ => assert!(false, "C02: read_line_ending: wrong outcome on truncated input"),
+        }
+        kani::cover!(matches!(r, Ok(true)), "must: line ending seen");
+        kani::cover!(r.is_err(), "must: truncated");
+        std::mem::forget(r);
+        std::mem::forget(reader);
+    });
+
+    /// trim_byte* / replace_byte against one-line specifications on all strings of length N
+    fn trims<const N: usize>() {
+        let data: [u8; N] = kani::any();
+        let b: u8 = kani::any();
+        let l = trim_byte_left(b, &data);
+        let mut a = 0;
+        while a < N && data[a] == b {
+            a += 1;
+        }
+        assert!(l.len() == N - a, "C04: trim_byte_left removed the wrong number of bytes");
+        let r = trim_byte_right(b, &data);
+        let mut e = N;
+        while e > 0 && data[e - 1] == b {
+            e -= 1;
+        }
+        assert!(r.len() == e, "C04: trim_byte_right removed the wrong number of bytes");
+        let t = trim_byte(b, &data);
+        let want = if a >= e { 0 } else { e - a };
+        assert!(t.len() == want, "C04: trim_byte result has the wrong length");
+        let mut i = 0;
+        while i < t.len() {
+            assert!(t[i] == data[a + i], "C04: trim_byte altered the value");
+            i += 1;
+        }
+        if l.len() > 0 {
+            assert!(l[0] == data[a] && l[l.len() - 1] == data[N - 1], "C04: trim_byte_left altered the value");
+        }
+        let mut copy = data;
+        let by: u8 = kani::any();
+        replace_byte(b, by, &mut copy);
+        let mut k = 0;
+        while k < N {
+            assert!(copy[k] == if data[k] == b { by } else { data[k] }, "C04: replace_byte wrong");
+            k += 1;
+        }
+        kani::cover!(t.len() > 0 && t.len() < N, "must: something trimmed");
+    }
+    verif_harness!(c04_q_trim_n4, 10, { trims::<4>() });
+    verif_harness!(c04_t_trim_n7, 10, { trims::<7>() });
+
+    verif_harness!(c04_qtwin_read_line, 10, {
+        read_line_all::<3>(16, 8, Seg::Whole);
+        assert!(false, "twin: must be reported as FAILURE");
+    });
+}
